@@ -170,6 +170,10 @@ class NXPLL(LiteXModule):
     def compute_config(self):
         config = {}
         for clki_div in range(*self.clki_div_range):
+            # Check if in VCO input (PFD) range.
+            (vco_in_freq_min, vco_in_freq_max) = self.vco_in_freq_range
+            if not (vco_in_freq_min <= self.clkin_freq/clki_div <= vco_in_freq_max):
+                continue
             config["clki_div"] = clki_div
             for clkfb_div in range(*self.clkfb_div_range):
                 all_valid = True
